@@ -15,6 +15,10 @@ function's own symbols):
   C19.phi      ln phi_i = B_r (z - 1) - ln(z - B) + A/(2 sqrt2 B) (B_r - 2 a_aa_sum2_i / a_aa_sum) ln((z + (1+sqrt2) B)/(z - (sqrt2-1) B)),
                z = P V/(R T), A = a P/(R T)^2, B = b P/(R T), B_r = b_i / b_sum; partial pressure = x_i P; phi = exp(ln phi);
                the SI correction is ln phi / ln 10; the clamp constants are ln 85 and ln 0.01
+  C19.kij      the binary interaction parameter is symmetric in the two gases (the mixing rule a_aa_sum = sum_i sum_j x_i x_j a_ij
+               and the fugacity term a_aa_sum2 assume a_ij = a_ji): every store into the user table writes both key orders
+               with the same value (or the look-up tries both orders), and the built-in fallback table of
+               calc_gas_binary_parameter has mirror-image blocks for (H2O, X) and (X, H2O)
 Not decided: ideal-gas relations, fixed-pressure existence rule, the root selected in the two-phase region, fugacity = 10^SI,
 gases in EQUILIBRIUM_PHASES (numerical / solver outcome).
 """
@@ -121,6 +125,58 @@ def run(P, R, tier):
     R.rule("C19.phi", "fugacity coefficient, compressibility, A, B, B_r, partial pressure and SI correction are the defining expressions", minimum=14)
     for f in fs:
         one_overload(P, R, f, "PR%d:" % len(f["pnames"]))
+    kij_rule(P, R)
+
+
+def kij_rule(P, R):
+    from .. import shape as SH
+    R.rule("C19.kij", "binary interaction parameters are symmetric: both key orders stored (or looked up), mirror-image fallback blocks", minimum=2)
+    stores = []
+    for key, f in sorted(P.functions.items()):
+        for x in T.walk(f["body"]):
+            if x[0] == "Bin" and x[2] == "=":
+                t = T.strip_casts(x[3])
+                if t[0] == "Call" and T.callee_name(t) == "operator[]" and any(y[0] == "Member" and y[2] == "Phreeqc::gas_binary_parameters" for y in T.walk(t)):
+                    mk = [c for c in T.calls(t) if T.callee_name(c) == "make_pair"]
+                    if mk:
+                        stores.append((f, x, tuple(T.text(a).replace(" ", "") for a in mk[0][4]), T.text(x[4])))
+    look = P.one("Phreeqc::calc_gas_binary_parameter")
+    finds = [c for c in T.calls(look["body"]) if T.callee_name(c) == "find"]
+    if not stores:
+        R.anchor_missing("C19.kij", "no store into gas_binary_parameters found")
+    else:
+        byf = {}
+        for f, x, keyp, val in stores:
+            byf.setdefault(f["q"], []).append((keyp, val, x[1], f))
+        for q, lst in sorted(byf.items()):
+            for keyp, val, line, f in lst:
+                mirror = [l for l in lst if l[0] == tuple(reversed(keyp)) and l[1] == val]
+                inst = "%s:store(%s,%s)" % (q.split("::")[-1], keyp[0], keyp[1])
+                if mirror or len(finds) >= 2:
+                    R.ok("C19.kij", inst, "mirror key stored with the same value" if mirror else "look-up tries both orders")
+                else:
+                    R.violation("C19.kij", inst, "the parameter is stored under (%s, %s) only and the look-up uses the ordered key: a_ij != a_ji for a pair given in the other order "
+                                "and the reported P, V, phi no longer satisfy the equation of state with the supplied k_ij" % keyp, file=f["file"], line=line, function=f["q"])
+    # fallback blocks
+    p1, p2 = look["pnames"][:2]
+    blocks = {}
+    for x in T.walk(look["body"]):
+        if x[0] == "If":
+            c = T.strip_casts(x[2])
+            txt = T.text(c)
+            if "H2O(g)" in txt and T.is_node(x[3]) and any(y[0] == "If" for y in T.walk(x[3])):
+                who = [y[3] for y in T.walk(c) if y[0] == "Ref" and y[2] == "param"]
+                if len(set(who)) == 1:
+                    blocks[who[0]] = x
+    if len(blocks) == 2 and p1 in blocks and p2 in blocks:
+        a = SH.shape(blocks[p1], {p1: "#A", p2: "#B"})
+        b = SH.shape(blocks[p2], {p2: "#A", p1: "#B"})
+        if a == b:
+            R.ok("C19.kij", "fallback:mirror", "the (H2O, X) and (X, H2O) blocks are mirror images")
+        else:
+            R.violation("C19.kij", "fallback:mirror", "the built-in (H2O, X) and (X, H2O) tables differ at %s" % (SH.first_difference(a, b),), file=look["file"], line=blocks[p2][1], function=look["q"])
+    else:
+        R.anchor_missing("C19.kij", "calc_gas_binary_parameter: the two built-in H2O(g) blocks not found")
 
 
 def one_overload(P, R, f, tag):
